@@ -73,7 +73,8 @@ VARIABLES
   ores,    \* [Reqs -> None | "ok" | "err" | "ctx"]
   q,       \* requests on their way to the accepting side (FIFO)
   hand,    \* the request the serve loop is handling (None: it is reading)
-  hst,     \* how far: None | "lookup" | "refused" | "handed" | "dropped" | "other"
+  hst,     \* how far: None | "lookup" | "toacc" (nobody expected it at the lookup: it waits for an Accept) |
+           \*          "refused" | "handed" | "dropped" | "other"
   rep,     \* [Reqs -> None | "result" | "error"] the reply seen on the wire
   given,   \* [Opens -> Nat] number of calls the session of this request was handed to
   dropped, \* open requests that were accepted while the listener was being closed: nobody gets the session
@@ -93,10 +94,10 @@ Init ==
 Owner(k) == {x \in tab : key[x] = k}
 AcceptWaiting == {a \in ACalls : pc[a] = "called"}
 HKey == IF hand \in Opens THEN key[hand] ELSE None
-(* the only legitimate wait of the serve loop: an open request, a listener, nobody expects the session, *)
-(* nobody is in Accept                                                                                   *)
+(* the only legitimate wait of the serve loop: an open request, a listener, nobody expected the session *)
+(* when the serve loop looked (an Expect that registers later does not get it), nobody is in Accept      *)
 WaitingForAcceptor ==
-  hand \in Opens /\ hst = "lookup" /\ lst = "open" /\ Owner(HKey) = {} /\ AcceptWaiting = {}
+  hand \in Opens /\ hst = "toacc" /\ lst = "open" /\ AcceptWaiting = {}
 
 -----------------------------------------------------------------------------
 (* Expect *)
@@ -155,7 +156,7 @@ Cancel(c) ==
 (* Listener.Close *)
 CloseCall ==
   /\ lst = "open" /\ lst' = "closing"
-  /\ viol' = IF "CloseClosesQueue" \in Dev /\ hand \in Opens /\ hst = "lookup" /\ Owner(HKey) = {}
+  /\ viol' = IF "CloseClosesQueue" \in Dev /\ hand \in Opens /\ hst = "toacc"
                THEN viol \cup {"C06_NoPanic"} ELSE viol
   /\ UNCHANGED <<pc, res, key, gotS, ctxc, sup, tab, cst, ores, q, hand, hst, rep, given, dropped>>
 CloseRet ==
@@ -205,8 +206,18 @@ HandToExpect(x) ==
   /\ given' = [given EXCEPT ![hand] = @ + 1] /\ hst' = "handed"
   /\ UNCHANGED <<lst, res, key, ctxc, sup, cst, ores, q, hand, rep, dropped, viol>>
 
-(* nobody expects it (Expect takes precedence): it goes to a call waiting in Accept *)
-CanHandA(a) == hand \in Opens /\ hst = "lookup" /\ lst # "none" /\ Owner(HKey) = {} /\ a \in AcceptWaiting
+(* nobody expects it (Expect takes precedence): it is for Accept.  The serve loop looks ONCE: an Expect *)
+(* that registers while the session waits for an acceptor does not get it.  A waiting, live (not       *)
+(* superseded) Expect call of that key at this moment means that its entry was lost.                   *)
+CanToAcc == hand \in Opens /\ hst = "lookup" /\ lst # "none" /\ Owner(HKey) = {}
+ToAcc ==
+  /\ CanToAcc /\ hst' = "toacc"
+  /\ viol' = IF \E x \in XCalls : pc[x] = "reg" /\ key[x] = HKey /\ x \notin sup
+               THEN viol \cup {"C06_ExpectGetsItsSession"} ELSE viol
+  /\ UNCHANGED <<lst, pc, res, key, gotS, ctxc, sup, tab, cst, ores, q, hand, rep, given, dropped>>
+
+(* ... it goes to a call waiting in Accept *)
+CanHandA(a) == hand \in Opens /\ hst = "toacc" /\ a \in AcceptWaiting
 HandToAccept(a) ==
   /\ CanHandA(a)
   /\ pc' = [pc EXCEPT ![a] = "got"] /\ gotS' = [gotS EXCEPT ![a] = hand]
@@ -215,8 +226,7 @@ HandToAccept(a) ==
 
 (* the listener is closed while the session waits for an acceptor: the serve loop goes on; the request *)
 (* was answered already (the result is written before the hand-over), nobody gets the session          *)
-CanDrop == hand \in Opens /\ hst = "lookup" /\ lst \in {"closing", "closed"} /\ Owner(HKey) = {}
-           /\ "CloseClosesQueue" \notin Dev
+CanDrop == hand \in Opens /\ hst = "toacc" /\ lst \in {"closing", "closed"} /\ "CloseClosesQueue" \notin Dev
 DropClosed ==
   /\ CanDrop /\ hst' = "dropped" /\ dropped' = dropped \cup {hand}
   /\ UNCHANGED <<lst, pc, res, key, gotS, ctxc, sup, tab, cst, ores, q, hand, rep, given, viol>>
@@ -236,7 +246,6 @@ Reply(r, what) ==
 (* application or the peer can supply.                                                                *)
 StallClauses ==
   (IF hand # None /\ ~WaitingForAcceptor THEN {"C06_ServeStall"} ELSE {})
-  \cup (IF \E x \in XCalls : pc[x] = "reg" /\ hand \in Opens /\ key[x] = HKey THEN {"C06_ExpectGetsItsSession"} ELSE {})
   \cup (IF \E x \in XCalls : pc[x] \in {"called", "reg", "left"} /\ x \in ctxc \cup sup THEN {"C06_CallReturns"} ELSE {})
 
 -----------------------------------------------------------------------------
@@ -257,7 +266,7 @@ MCLib ==
   /\ UNCHANGED nenv
   /\ \/ \E x \in XCalls : Register(x) \/ Wake(x) \/ HandToExpect(x) \/ \E out \in {"stream", "ctx"} : ExpectRet(x, out)
      \/ \E a \in ACalls : HandToAccept(a) \/ \E out \in {"stream", "closed"} : AcceptRet(a, out)
-     \/ CloseRet \/ Refuse \/ DropClosed
+     \/ CloseRet \/ Refuse \/ ToAcc \/ DropClosed
      \/ \E r \in Reqs : ReqWire(r) \/ Deliver(r) \/ \E out \in {"ok", "err", "ctx"} : ReqRet(r, out)
      \/ \E r \in Reqs : \E what \in {"result", "error"} : Reply(r, what)
 MCInit == Init /\ nenv = 0
@@ -279,6 +288,8 @@ C06_Outcome ==
   /\ \A c \in Calls : (res[c] = "stream" => gotS[c] # None) /\ (res[c] = "ctx" => c \in ctxc \cup sup)
   /\ \A r \in Reqs : ores[r] = "ctx" => r \in ctxc
 C06_NoPanic == "C06_NoPanic" \notin viol
+(* a session is never left to Accept while a live Expect call is waiting for exactly that session *)
+C06_ExpectGetsItsSession == "C06_ExpectGetsItsSession" \notin viol
 (* no permanent stall: whenever the library cannot move, nobody waits for the library *)
 C06_ListenNoStall == ~ENABLED MCLib => StallClauses = {}
 (* C15, first clause: Open succeeds only when the peer accepted the session: the reply was a result, and a *)
